@@ -168,6 +168,7 @@ func (r *runner) stepMulThenAdd(op Op, key, cls string, ia int) error {
 		ratio := new(big.Rat).Quo(sres, o.scale)
 		rf := ratFloat(ratio)
 		nonInt := false
+		suspectTrunc := false
 		switch {
 		case ratio.Cmp(new(big.Rat).SetInt64(1)) == 0 || rf < 1+1e-30:
 			exp.scale = o.scale
@@ -183,8 +184,21 @@ func (r *runner) stepMulThenAdd(op Op, key, cls string, ia int) error {
 		default:
 			exp.scale = sres
 			align := 0.0
-			if !new(big.Float).SetPrec(e.prec).SetRat(ratio).IsInt() {
-				align = 1 / rf
+			bRec := a.ct.Scale
+			if b.ct != nil {
+				bRec = b.ct.Scale
+			} else if b.plain != nil {
+				bRec = b.plain.Scale
+			}
+			if truncationSuspect(ratio, a.ct.Scale.Mul(bRec), o.ct.Scale) {
+				// exact ratio is an integer but the 128-bit quotient falls just below it (listed finding)
+				suspectTrunc = true
+				r.rec.Class("scale-ratio=quotient-below-integer")
+				if r.rec.Known(truncKey, "MulThenAdd accumulator scaling") {
+					align = 1 / rf
+				}
+			} else if !new(big.Float).SetPrec(e.prec).SetRat(ratio).IsInt() {
+				align = alignErr(sres, o.scale, false) // the accumulator is multiplied by the integer closest to the ratio
 				nonInt = true
 				r.rec.Class("mulThenAdd=non-integer-ratio")
 			} else {
@@ -226,6 +240,10 @@ func (r *runner) stepMulThenAdd(op Op, key, cls string, ia int) error {
 		}
 		exp.ct = target
 		ferr := finish(exp, io, err)
+		if f, ok := ferr.(*h.Failure); ok && suspectTrunc && strings.HasSuffix(f.Key, ":value") {
+			f.Key = truncKey
+			return ferr
+		}
 		if f, ok := ferr.(*h.Failure); ok && nonInt && strings.HasSuffix(f.Key, ":value") {
 			f.Key = "C06:MulThenAdd:non-integer-scale-ratio:value"
 			if r.known(ferr) {
